@@ -44,6 +44,16 @@ def load_variants(prop: str) -> List[dict]:
             patch = os.path.join(SEEDED_DIR, d, "patch.diff")
             if os.path.exists(meta) and os.path.exists(patch) and json.load(open(meta)).get("breaks_property") == prop:
                 out.append({"id": f"seeded:{d}", "kind": "break", "rule": "*", "patch": patch})
+    # behaviour-preserving refactorings written by independent sub-agents are replayed as benign variants: no rule may fire
+    bdir = os.path.join(os.path.dirname(SEEDED_DIR), "benign")
+    if os.path.isdir(bdir):
+        import json
+
+        for d in sorted(os.listdir(bdir)):
+            meta = os.path.join(bdir, d, "meta.json")
+            patch = os.path.join(bdir, d, "patch.diff")
+            if os.path.exists(meta) and os.path.exists(patch) and json.load(open(meta)).get("written_for_property") == prop:
+                out.append({"id": f"refactoring:{d}", "kind": "benign", "rule": None, "patch": patch})
     return out
 
 
